@@ -256,7 +256,21 @@ class Processor:
         >>> processor.get("pipeline.characteristics.quantum_efficiency")
         array(0.1)
         """
-        func: Callable = operator.attrgetter(key)
+        def func(processor: "Processor") -> Any:
+            try:
+                return operator.attrgetter(key)(processor)
+            except AttributeError:
+                # Note: like 'has' and 'set', a key can address an entry of a dictionary
+                #       (e.g. a nested model argument)
+                try:
+                    obj, att = _get_obj_att(obj=processor, key=key)
+                except Exception:  # noqa: BLE001
+                    obj, att = None, ""
+
+                if isinstance(obj, dict) and att in obj:
+                    return obj[att]
+
+                raise
 
         try:
             result = func(self)
